@@ -57,6 +57,8 @@ W.axioms += [
     ForAll([T_, x, y, z], Implies(And(ReachE(T_, x, y), Select(T_, y, EPS, z)), ReachE(T_, x, z))),
     ForAll([T_, x], ReachA(T_, x, x)),
     ForAll([T_, x, y, z, a], Implies(And(ReachA(T_, x, y), Select(T_, y, a, z)), ReachA(T_, x, z))),
+    # left extension: true of the reflexive-transitive closure (Relation.ReflTransGen.head in Lean, bridge/empty.lean `reach_head`); needs induction, so it is given
+    ForAll([T_, x, y, z, a], Implies(And(Select(T_, x, a, y), ReachA(T_, y, z)), ReachA(T_, x, z)), patterns=[MultiPattern(Select(T_, x, a, y), ReachA(T_, y, z))]),
     ForAll([T_, S_, a, x], Select(StepF(T_, S_, a), x) == Exists([p], And(Select(S_, p), Select(T_, p, a, x)))),
     ForAll([T_, S_, x], Select(EclF(T_, S_), x) == Exists([p], And(Select(S_, p), ReachE(T_, p, x)))),
     ForAll([T_, x, a, y], Select(CallF(T_, x, a), y) == Select(T_, x, a, y)),
@@ -201,6 +203,65 @@ W.contract(Contract('NFA.is_deterministic', [('self', NFA)], ret=TBool,
 W.contract(Contract('DFA.is_deterministic', [('self', DFA)], ret=TBool, requires=lambda o: WFDv(o.self),
     ensures=lambda o, r, n: r.term == And(ForAll([p, q], Implies(And(o.self.I[p], o.self.I[q]), p == q)),
                                          ForAll([p, a, q, q2], Implies(And(o.self.T[p, a, q], o.self.T[p, a, q2]), q == q2)))))
+
+# ------------------------------------------------------------------ reachability helpers of FiniteAutomaton (C04: word enumeration pruning)
+PairSySt = TTuple(Sy, St); TripleT = TTuple(St, Sy, St)
+def pairAS(a_, q_): return PairSySt.make(_0=Sym(Sy, a_), _1=Sym(St, q_)).term
+def triple(p_, a_, q_): return TripleT.make(_0=Sym(St, p_), _1=Sym(Sy, a_), _2=Sym(St, q_)).term
+for V_ in (NTFV,):
+    W.contract(Contract(f'{V_.name}.get_transitions_from', [('self', V_), ('state_from', St)], ret=TBag(PairSySt),
+        ensures=lambda o, r, n: ForAll([a, q], r[pairAS(a, q)] == If(o.self.T[o.state_from, a, q], 1, 0))))
+    W.contract(Contract(f'{V_.name}.get_edges', [('self', V_)], ret=TBag(TripleT),
+        ensures=lambda o, r, n: ForAll([p, a, q], r[triple(p, a, q)] == If(o.self.T[p, a, q], 1, 0))))
+def succ_any(Tm, p_, q_): return Exists([a], Select(Tm, p_, a, q_))
+W.contract(Contract('ENFA._get_next_states_from', [('self', ENFA), ('state_from', St)], ret=SetSt,
+    ensures=lambda o, r, n: ForAll([q], r[q] == succ_any(o.self.T.term, o.state_from.term, q)),
+    locals={'next_states': SetSt},
+    loops={'0': lambda e, done: ForAll([q], e.next_states[q] == Exists([a], done[pairAS(a, q)] > 0))}))
+def from_I(A, yv): return Exists([p], And(A.I[p], ReachA(A.T.term, p, yv)))
+def grs_inv(inner):
+    def inv(e, done):
+        A, vis, tp = e.self, e.visited, e.states_to_process; Tm = A.T.term
+        skip = (lambda yy: yy != e.current_state.term) if inner else (lambda yy: BoolVal(True))
+        cl = [ForAll([y], Implies(A.I[y], Or(vis[y], tp[y] > 0))), ForAll([y], Implies(vis[y], from_I(A, y))), ForAll([y], tp[y] >= 0),
+              ForAll([y], Implies(tp[y] > 0, from_I(A, y))),
+              ForAll([y, a, z], Implies(And(vis[y], skip(y), A.T[y, a, z]), Or(vis[z], tp[z] > 0)), patterns=[A.T[y, a, z]])]
+        if inner: cl += [vis[e.current_state], ForAll([z], Implies(done[z], Or(vis[z], tp[z] > 0)))]
+        return And(cl)
+    return inv
+W.contract(Contract('ENFA._get_reachable_states', [('self', ENFA)], ret=SetSt,
+    ensures=lambda o, r, n: And(ForAll([y], Implies(r[y], from_I(o.self, y)), patterns=[r[y]]), ForAll([p, y], Implies(And(o.self.I[p], ReachA(o.self.T.term, p, y)), r[y]), patterns=[ReachA(o.self.T.term, p, y)])),
+    locals={'visited': SetSt},
+    loops={'0': grs_inv(False), '0.0': grs_inv(True)},
+    loop_post={'0': lambda e: And(ForAll([y], Implies(e.self.I[y], e.visited[y])), ForAll([y, a, z], Implies(And(e.visited[y], e.self.T[y, a, z]), e.visited[z]), patterns=[e.self.T[y, a, z]]))},
+    hints=lambda o, e, r: [ForAll([x], closure_induction(ReachA, o.self.T.term, x, r.term, lambda yy, zz: Exists([a], o.self.T[yy, a, zz])))]))
+# states from which a final state can be reached (backward search; code after fix 2dc9a83)
+MapPrev = TMap(St, SetSt)
+def prev_val(m, z_, y_): return Select(Select(MapPrev.get(m, 'val').term, z_), y_)
+def prev_dom(m, z_): return Select(MapPrev.get(m, 'dom').term, z_)
+def prev_spec(m, A, cov):
+    return And(ForAll([z, y], Implies(And(prev_dom(m, z), prev_val(m, z, y)), Exists([a], And(A.T[y, a, z], cov(y, a, z))))),
+               ForAll([y, a, z], Implies(And(A.T[y, a, z], cov(y, a, z)), And(prev_dom(m, z), prev_val(m, z, y))), patterns=[A.T[y, a, z]]))
+def to_F(A, yv): return Exists([f_], And(A.F[f_], ReachA(A.T.term, yv, f_)))
+def ltf_inv(inner):
+    def inv(e, done):
+        A, L, tp = e.self, e.leading_to_final, e.states_to_process
+        skip = (lambda zz: zz != e.current_state.term) if inner else (lambda zz: BoolVal(True))
+        cl = [prev_spec(e.previous_states, A, lambda *a_: BoolVal(True)),
+              ForAll([y], Implies(A.F[y], L[y])), ForAll([y], Implies(L[y], to_F(A, y))), ForAll([y], tp[y] >= 0), ForAll([y], Implies(tp[y] > 0, L[y])),
+              ForAll([y, a, z], Implies(And(L[z], tp[z] == 0, skip(z), A.T[y, a, z]), L[y]), patterns=[A.T[y, a, z]])]
+        if inner: cl += [L[e.current_state], ForAll([y], Implies(done[y], L[y]))]
+        return And(cl)
+    return inv
+W.contract(Contract('ENFA._get_states_leading_to_final', [('self', ENFA)], ret=SetSt,
+    ensures=lambda o, r, n: And(ForAll([y], Implies(r[y], to_F(o.self, y)), patterns=[r[y]]),
+                                ForAll([y, f_], Implies(And(o.self.F[f_], ReachA(o.self.T.term, y, f_)), r[y]), patterns=[ReachA(o.self.T.term, y, f_)])),
+    locals={'previous_states': MapPrev},
+    loops={'0': lambda e, done: And(prev_spec(e.previous_states, e.self, lambda yy, aa, zz: done[triple(yy, aa, zz)] > 0), e.leading_to_final == e.self.F),
+           '1': ltf_inv(False), '1.0': ltf_inv(True)},
+    loop_post={'1': lambda e: And(ForAll([y], Implies(e.self.F[y], e.leading_to_final[y])),
+                                  ForAll([y, a, z], Implies(And(e.leading_to_final[z], e.self.T[y, a, z]), e.leading_to_final[y]), patterns=[e.self.T[y, a, z]]))},
+    hints=lambda o, e, r: [ForAll([x], closure_induction(ReachA, o.self.T.term, x, Lambda([y], Implies(Select(r.term, y), Select(r.term, x))), lambda yy, zz: Exists([a], o.self.T[yy, a, zz])))]))
 
 # ------------------------------------------------------------------ is_empty
 def reach_from_I(A, yv):
@@ -652,6 +713,7 @@ TARGETS.update({'DFA.add_start_state': (_PD, 'DeterministicFiniteAutomaton.add_s
 W.super_of = {'NFA': ENFA, 'DFA': NFA}
 TARGETS.update({'NFA.accepts': (_PN, 'NondeterministicFiniteAutomaton.accepts'), 'NFA.is_deterministic': (_PN, 'NondeterministicFiniteAutomaton.is_deterministic'),
                 'DFA.accepts': (_PD, 'DeterministicFiniteAutomaton.accepts'), 'DFA.is_deterministic': (_PD, 'DeterministicFiniteAutomaton.is_deterministic')})
+TARGETS.update({f'ENFA.{m}': (_PF, f'FiniteAutomaton.{m}') for m in ['_get_next_states_from', '_get_reachable_states', '_get_states_leading_to_final']})
 TARGETS.update({'DFA.copy': (_PD, 'DeterministicFiniteAutomaton.copy'), 'DFA.to_deterministic': (_PD, 'DeterministicFiniteAutomaton.to_deterministic'),
                 'NFA.to_deterministic': (_PN, 'NondeterministicFiniteAutomaton.to_deterministic')})
 
